@@ -344,29 +344,39 @@ Theorem via_eval_statement : forall w s, run_via VEvalRaw w s = res SSyntax [].
 Proof. reflexivity. Qed.
 
 (* ---------- builtins ---------- *)
+Lemma native_off e : ne_native e && d_native_builtins dev_off = false.
+Proof. apply andb_false_r. Qed.
+
+(* conformant code (all switches off): excluded and underscore names never denote the real builtin nor the builtins
+   namespace, whatever the scope declares, binds or deletes *)
 Theorem builtins_excluded : forall e n,
-  In n builtin_exclude \/ starts_underscore n = true -> name_lookup e n <> KBuiltin.
+  In n builtin_exclude \/ starts_underscore n = true ->
+  name_lookup dev_off e n <> KBuiltin /\ name_lookup dev_off e n <> KBuiltinsNs.
 Proof.
-  intros e n H. unfold name_lookup.
-  destruct (ne_sym e); [discriminate|].
-  destruct (if ne_local e then assoc n logger_funcs else None); [discriminate|].
-  destruct (ne_local e && str_mem n other_ast_funcs); [discriminate|].
-  destruct (ne_global e); [discriminate|].
-  destruct (str_mem n ast_factory_funcs); [discriminate|].
+  intros e n H. unfold name_lookup. rewrite native_off. unfold interp_lookup. cbn [d_builtins_leak dev_off andb].
+  destruct (ne_gdecl e); [destruct (ne_global e); split; discriminate|].
+  destruct (ne_unbound e); [split; discriminate|].
+  destruct (ne_sym e); [split; discriminate|].
+  destruct (if ne_local e then assoc n logger_funcs else None); [split; discriminate|].
+  destruct (ne_local e && str_mem n other_ast_funcs); [split; discriminate|].
+  destruct (ne_global e); [destruct (ne_localname e); split; discriminate|].
+  destruct (str_mem n ast_factory_funcs); [split; discriminate|].
   destruct H as [H|H].
-  - apply str_mem_In in H. rewrite H. rewrite andb_false_r. discriminate.
-  - rewrite H. rewrite andb_false_r. discriminate.
+  - apply str_mem_In in H. rewrite H. rewrite andb_false_r. split; discriminate.
+  - rewrite H. rewrite andb_false_r. split; discriminate.
 Qed.
 
 Theorem builtin_only_if : forall e n,
-  name_lookup e n = KBuiltin ->
+  name_lookup dev_off e n = KBuiltin ->
   ne_pybuiltin e = true /\ ~ In n builtin_exclude /\ starts_underscore n = false /\ ~ In n ast_factory_funcs.
 Proof.
-  intros e n. unfold name_lookup.
+  intros e n. unfold name_lookup. rewrite native_off. unfold interp_lookup. cbn [d_builtins_leak dev_off andb].
+  destruct (ne_gdecl e); [destruct (ne_global e); discriminate|].
+  destruct (ne_unbound e); [discriminate|].
   destruct (ne_sym e); [discriminate|].
   destruct (if ne_local e then assoc n logger_funcs else None); [discriminate|].
   destruct (ne_local e && str_mem n other_ast_funcs); [discriminate|].
-  destruct (ne_global e); [discriminate|].
+  destruct (ne_global e); [destruct (ne_localname e); discriminate|].
   destruct (str_mem n ast_factory_funcs) eqn:Ef; [discriminate|].
   destruct (ne_pybuiltin e); [|discriminate].
   destruct (str_mem n builtin_exclude) eqn:Ex; [discriminate|].
@@ -378,28 +388,54 @@ Qed.
 Lemma six_excluded : forall n, In n six_names -> In n builtin_exclude.
 Proof. intros n H. apply str_mem_In. cbn in H. repeat (destruct H as [<-|H]; [reflexivity|]). destruct H. Qed.
 
-Theorem six_never_builtin : forall e n, In n six_names -> name_lookup e n <> KBuiltin.
+Theorem six_never_builtin : forall e n, In n six_names -> name_lookup dev_off e n <> KBuiltin.
 Proof. intros e n H. apply builtins_excluded. left. apply six_excluded. exact H. Qed.
 
 Lemma factory_wrapped : forall n, In n ["eval"; "exec"; "globals"; "locals"] -> In n ast_factory_funcs.
 Proof. intros n H. apply str_mem_In. cbn in H. repeat (destruct H as [<-|H]; [reflexivity|]). destruct H. Qed.
 
-Theorem eval_exec_never_builtin : forall e n, In n ["eval"; "exec"; "globals"; "locals"] -> name_lookup e n <> KBuiltin.
+Theorem eval_exec_never_builtin : forall e n, In n ["eval"; "exec"; "globals"; "locals"] -> name_lookup dev_off e n <> KBuiltin.
 Proof.
   intros e n H Hk. apply builtin_only_if in Hk. destruct Hk as (_ & _ & _ & Hf). apply Hf. apply factory_wrapped. exact H.
 Qed.
 
-(* print and the log functions denote methods of the script's logger unless the script rebinds them in the
-   current table *)
-Theorem print_is_logger : forall e, ne_sym e = false -> ne_local e = true -> exists lvl, name_lookup e "print" = KLogger lvl.
-Proof. intros e H Hl. unfold name_lookup. rewrite H, Hl. cbn. eauto. Qed.
+(* print and the log functions denote methods of the script's logger unless the script declares, rebinds or deletes them in
+   the current table, wherever the evaluator's local table is the installed one *)
+Definition plain_env (e : nenv) : Prop :=
+  ne_gdecl e = false /\ ne_unbound e = false /\ ne_sym e = false /\ ne_local e = true.
 
-Theorem log_funcs_are_loggers : forall e n lvl,
-  ne_sym e = false -> ne_local e = true -> In (n, lvl) log_names -> name_lookup e n = KLogger lvl.
+Theorem print_is_logger : forall cfg e, ne_native e = false -> plain_env e -> exists lvl, name_lookup cfg e "print" = KLogger lvl.
 Proof.
-  intros e n lvl H Hl Hin. unfold name_lookup. rewrite H, Hl. cbn in Hin.
+  intros cfg e Hn (H1 & H2 & H3 & H4). unfold name_lookup, interp_lookup. rewrite Hn, H1, H2, H3, H4. cbn. eauto.
+Qed.
+
+Theorem log_funcs_are_loggers : forall cfg e n lvl,
+  ne_native e = false -> plain_env e -> In (n, lvl) log_names -> name_lookup cfg e n = KLogger lvl.
+Proof.
+  intros cfg e n lvl Hn (H1 & H2 & H3 & H4) Hin. unfold name_lookup, interp_lookup. rewrite Hn, H1, H2, H3, H4. cbn in Hin.
   repeat (destruct Hin as [E|Hin]; [inversion E; reflexivity|]). destruct Hin.
 Qed.
+
+(* ---------- the deviations of the current code refute the claim (witnesses replayed on the real code by the check) ---------- *)
+Definition env_lambda : nenv :=
+  {| ne_sym := false; ne_global := false; ne_local := true; ne_pybuiltin := true; ne_gdecl := false; ne_unbound := false;
+     ne_localname := false; ne_native := true; ne_leaked := false |}.
+Definition env_after_lambda : nenv :=
+  {| ne_sym := false; ne_global := false; ne_local := true; ne_pybuiltin := false; ne_gdecl := false; ne_unbound := false;
+     ne_localname := false; ne_native := false; ne_leaked := true |}.
+
+Theorem builtins_refuted_D170 :
+  exists e n, In n six_names /\ name_lookup {| d_native_builtins := true; d_builtins_leak := false |} e n = KBuiltin.
+Proof. exists env_lambda, "open". split; [left; reflexivity|vm_compute; reflexivity]. Qed.
+
+Theorem builtins_refuted_D170_import :
+  exists e, name_lookup {| d_native_builtins := true; d_builtins_leak := false |} e "__import__" = KBuiltin.
+Proof. exists env_lambda. vm_compute. reflexivity. Qed.
+
+Theorem builtins_refuted_D171 :
+  exists e n, starts_underscore n = true /\ ne_native e = false
+              /\ name_lookup {| d_native_builtins := false; d_builtins_leak := true |} e n = KBuiltinsNs.
+Proof. exists env_after_lambda, "__builtins__". repeat split; vm_compute; reflexivity. Qed.
 
 (* names a weakened test would let through are denied by the regenerated list *)
 Example near_misses_denied :
@@ -465,14 +501,18 @@ Example ex_stubs :
   /\ run_stmt (ex_world false) (SFrom (Some "stubs.pyscript_builtins") 0 [{| al_name := "x"; al_as := None |}]) = res SIgnored [].
 Proof. repeat split; vm_compute; reflexivity. Qed.
 
+Definition env_plain : nenv :=
+  {| ne_sym := false; ne_global := false; ne_local := true; ne_pybuiltin := true; ne_gdecl := false; ne_unbound := false;
+     ne_localname := false; ne_native := false; ne_leaked := false |}.
 Example ex_names :
-  name_lookup {| ne_sym := false; ne_global := false; ne_local := true; ne_pybuiltin := true |} "open" = KUndefined
-  /\ name_lookup {| ne_sym := false; ne_global := false; ne_local := true; ne_pybuiltin := true |} "__import__" = KUndefined
-  /\ name_lookup {| ne_sym := false; ne_global := false; ne_local := true; ne_pybuiltin := true |} "len" = KBuiltin
-  /\ name_lookup {| ne_sym := false; ne_global := false; ne_local := true; ne_pybuiltin := true |} "print" = KLogger "debug"
-  /\ name_lookup {| ne_sym := false; ne_global := false; ne_local := true; ne_pybuiltin := true |} "eval" = KFactory
-  (* inside a trigger string expression: no logger print, and still not the real one *)
-  /\ name_lookup {| ne_sym := false; ne_global := false; ne_local := false; ne_pybuiltin := true |} "print" = KUndefined.
+  name_lookup dev_off env_plain "open" = KUndefined
+  /\ name_lookup dev_off env_plain "__import__" = KUndefined
+  /\ name_lookup dev_off env_plain "len" = KBuiltin
+  /\ name_lookup dev_off env_plain "print" = KLogger "debug"
+  /\ name_lookup dev_off env_plain "eval" = KFactory
+  /\ plain_env env_plain /\ ne_native env_plain = false
+  (* a lambda body under conformant code is an ordinary function body *)
+  /\ name_lookup dev_off env_lambda "open" = KUndefined.
 Proof. repeat split; vm_compute; reflexivity. Qed.
 
 (* ---------- Model |= Spec on the functions the correspondence evaluates ---------- *)
@@ -527,22 +567,37 @@ Proof.
   - exfalso. destruct (ic_via c); try (exact (never_other _ _ _ Hb)). destruct Hb.
 Qed.
 
-(* the same for plain names: every lookup the Model reproduces satisfies the property's clauses *)
-Theorem ncase_model_implies_spec : forall c, ncase_model_ok c = true -> ncase_spec_ok c = true.
+(* the same for plain names: every lookup the conformant Model reproduces satisfies the property's clauses *)
+Theorem ncase_model_implies_spec : forall c, ncase_model_ok dev_off c = true -> ncase_spec_ok c = true.
 Proof.
   intros c Hm. unfold ncase_model_ok in Hm. rewrite andb_true_iff in Hm. destruct Hm as [Hk Hl].
   apply nkind_eqb_eq in Hk. unfold ncase_spec_ok. apply andb_true_iff. split.
   - destruct (str_mem (nc_name c) six_names || starts_underscore (nc_name c)) eqn:E; [|reflexivity].
-    apply negb_true_iff. destruct (nkind_eqb (nc_kind c) KBuiltin) eqn:Ek; [|reflexivity].
-    apply nkind_eqb_eq in Ek. exfalso. rewrite Ek in Hk. revert Hk. apply builtins_excluded.
-    apply orb_true_iff in E. destruct E as [E|E]; [left; apply six_excluded, str_mem_In; exact E|right; exact E].
+    assert (Hex : In (nc_name c) builtin_exclude \/ starts_underscore (nc_name c) = true).
+    { apply orb_true_iff in E. destruct E as [E|E]; [left; apply six_excluded, str_mem_In; exact E|right; exact E]. }
+    destruct (builtins_excluded (nenv_of c) (nc_name c) Hex) as [Hb Hns].
+    assert (Hkb : nc_kind c <> KBuiltin /\ nc_kind c <> KBuiltinsNs).
+    { rewrite <- Hk. unfold ncase_model. destruct (nc_scope c); try (split; assumption).
+      destruct (nkind_eqb (name_lookup dev_off (nenv_of c) (nc_name c)) KUndefined); [split; discriminate|split; assumption]. }
+    destruct Hkb as [H1 H2]. apply andb_true_iff. split; apply negb_true_iff.
+    + destruct (nkind_eqb (nc_kind c) KBuiltin) eqn:Ek; [apply nkind_eqb_eq in Ek; contradiction|reflexivity].
+    + destruct (nkind_eqb (nc_kind c) KBuiltinsNs) eqn:Ek; [apply nkind_eqb_eq in Ek; contradiction|reflexivity].
   - destruct (nc_shadow c) eqn:Es; [reflexivity|]. cbn [orb].
-    destruct (scope_is_trig (nc_scope c)) eqn:Et; [reflexivity|].
-    assert (Hsym : ne_sym (nenv_of c) = false) by (unfold nenv_of; cbn [ne_sym]; rewrite Es; reflexivity).
-    assert (Hloc : ne_local (nenv_of c) = true) by (unfold nenv_of; cbn [ne_local]; rewrite Et; reflexivity).
+    destruct (scope_is_trig (nc_scope c)) eqn:Et; [reflexivity|]. cbn [orb].
+    destruct (scope_script_binds (nc_scope c)) eqn:Eb; [reflexivity|].
+    assert (Hplain : plain_env (nenv_of c) /\ ncase_model dev_off c = name_lookup dev_off (nenv_of c) (nc_name c)).
+    { unfold plain_env, ncase_model, nenv_of. cbn [ne_gdecl ne_unbound ne_sym ne_local]. rewrite Es, Et.
+      destruct (nc_scope c); try discriminate Eb; repeat split; reflexivity. }
+    destruct Hplain as [Hplain Hmod]. rewrite Hmod in Hk.
+    (* with all switches off a native scope is looked up like an interpreted one *)
+    assert (Hlk : forall n, name_lookup dev_off (nenv_of c) n = interp_lookup dev_off (nenv_of c) n).
+    { intros n. unfold name_lookup. rewrite native_off. reflexivity. }
+    destruct Hplain as (H1 & H2 & H3 & H4).
     destruct (String.eqb_spec (nc_name c) "print") as [Ep|Ep].
-    + destruct (print_is_logger _ Hsym Hloc) as (lvl & Hp). rewrite Ep, Hp in Hk. rewrite <- Hk in Hl |- *. exact Hl.
+    + rewrite Hlk, Ep in Hk. unfold interp_lookup in Hk. rewrite H1, H2, H3, H4 in Hk. cbn in Hk.
+      rewrite <- Hk in Hl |- *. exact Hl.
     + destruct (assoc (nc_name c) log_names) as [lvl|] eqn:Ea; [|reflexivity].
-      apply assoc_In in Ea. rewrite (log_funcs_are_loggers _ _ _ Hsym Hloc Ea) in Hk.
-      rewrite <- Hk in Hl |- *. cbn [nkind_eqb]. rewrite String.eqb_refl. exact Hl.
+      apply assoc_In in Ea. rewrite Hlk in Hk. unfold interp_lookup in Hk. rewrite H1, H2, H3, H4 in Hk.
+      cbn in Ea. repeat (destruct Ea as [E|Ea]; [inversion E as [[En El]]; rewrite <- En in Hk; cbn in Hk;
+        rewrite <- Hk in Hl |- *; cbn [nkind_eqb]; rewrite String.eqb_refl; exact Hl|]). destruct Ea.
 Qed.
